@@ -11,6 +11,7 @@ import (
 	"hash/fnv"
 	"os"
 	"runtime/debug"
+	"runtime/pprof"
 	"sort"
 	"strconv"
 	"strings"
@@ -237,6 +238,8 @@ type ExploreOpts struct {
 	NoAudit    bool
 }
 
+var memDebug = os.Getenv("VERIF_MEMDEBUG")
+
 // curExec: the execution that is running (application runs bind their scheduler to it).
 var curExec *Exec
 
@@ -392,6 +395,12 @@ func (w *Worker) Explore(name string, opt ExploreOpts, body func(x *Exec)) {
 		if !w.Deadline.IsZero() && time.Now().After(w.Deadline) {
 			w.TimedOut = true
 			break
+		}
+		if memDebug != "" && w.Executions%5000 == 0 { // development aid: VERIF_MEMDEBUG=<dir>
+			if f, err := os.Create(fmt.Sprintf("%s/heap-%d.prof", memDebug, os.Getpid())); err == nil {
+				pprof.WriteHeapProfile(f)
+				f.Close()
+			}
 		}
 	}
 	w.States += st.States
